@@ -759,6 +759,35 @@ impl<'a> Run<'a> {
 		self.flush_fails();
 	}
 	fn flush_fails(&mut self) { for f in self.fails.drain(..) { self.rec.oracle_fail(f); } }
+	/// op `tlvp`: the real `decode_tlv_stream!` on a bare TLV stream. `recs` = the well-framed record list the bytes were made from
+	/// (None for byte-level damage): the implementation-side oracle states the TLV rules on it without the Lean model.
+	fn case_tlvp(&mut self, bytes: &[u8], recs: Option<&[(u64, Vec<u8>)]>, kind: &str) {
+		let r = guarded(AssertUnwindSafe(|| { let mut rd = &bytes[..]; tlv_probe(&mut rd) }));
+		let ans = match &r {
+			Err(p) => { self.rec.oracle_fail(format!("panic in decode_tlv_stream! on {}: {}", hex(bytes), p)); format!("panic {}", p.replace('\n', " ")) },
+			Ok(Err(e)) => format!("err {}", err_name(e)),
+			Ok(Ok((a, b, c, d))) => format!("ok {} {} {} {}", a, b.map(|x| x.to_string()).unwrap_or("-".into()), c, d.map(|x| x.to_string()).unwrap_or("-".into())),
+		};
+		if let (Some(recs), Ok(res)) = (recs, &r) {
+			let ascending = recs.windows(2).all(|w| w[0].0 < w[1].0);
+			let unknown_even = recs.iter().any(|(t, _)| tlv_probe_width(*t).is_none() && t % 2 == 0);
+			let bad_len = recs.iter().any(|(t, v)| tlv_probe_width(*t).map(|w| w != v.len()).unwrap_or(false));
+			let has_req = [2u64, 6].iter().all(|q| recs.iter().any(|(t, _)| t == q));
+			let expect_ok = ascending && !unknown_even && !bad_len && has_req;
+			if res.is_ok() != expect_ok {
+				self.rec.oracle_fail(format!("TLV stream rules violated by decode_tlv_stream! on {} (types {:?}): {} but ascending={} unknown_even={} wrong_length={} all_required_present={}",
+					hex(bytes), recs.iter().map(|(t, _)| *t).collect::<Vec<_>>(), ans, ascending, unknown_even, bad_len, has_req));
+			}
+			if let Ok((a, b, c, d)) = res {
+				let val = |t: u64| recs.iter().find(|(x, _)| *x == t).map(|(_, v)| v.iter().fold(0u64, |acc, x| (acc << 8) | *x as u64));
+				if expect_ok && (Some(*a) != val(2) || b.map(|x| x as u64) != val(3) || Some(*c as u64) != val(6) || *d != val(9)) {
+					self.rec.oracle_fail(format!("decode_tlv_stream! on {} returned {} but the records carry other values", hex(bytes), ans));
+				}
+			}
+		}
+		let outcome = ans.split(' ').take(if ans.starts_with("err") { 2 } else { 1 }).collect::<Vec<_>>().join(":");
+		self.rec.case(&format!("tlvp {}", hex(bytes)), &ans, &format!("tlvp-{}:{}", kind, outcome), true);
+	}
 	fn case_wire(&mut self, bytes: &[u8], kind: &str, covered_ids: &[u16]) {
 		// only ids whose payload decoder the model covers, or ids the real reader does not know
 		let r = guarded(AssertUnwindSafe(|| vh::wire::read(bytes)));
@@ -798,6 +827,17 @@ impl<'a> Run<'a> {
 		self.rec.case(&format!("bigsize {}", hex(bytes)), &ans, &format!("bigsize-{}:{}", kind, outcome), true);
 	}
 }
+
+/// The public `decode_tlv_stream!` of /repo expanded on a field list WITH required TLVs (no peer message declares one today, so the
+/// `required` arms of `_check_decoded_tlv_order!` / `_check_missing_tlv!` are reached by no message decoder); mirrored by
+/// Model/TlvProbe.lean `tlvProbeSchema`.
+fn tlv_probe<R: lightning::io::Read>(stream: &mut R) -> Result<(u64, Option<u32>, u16, Option<u64>), DecodeError> {
+	let mut a = 0u64; let mut b: Option<u32> = None; let mut c = 0u16; let mut d: Option<u64> = None;
+	lightning::decode_tlv_stream!(stream, { (2, a, required), (3, b, option), (6, c, required), (9, d, option) });
+	Ok((a, b, c, d))
+}
+/// width of the probe's known types
+fn tlv_probe_width(t: u64) -> Option<usize> { match t { 2 => Some(8), 3 => Some(4), 6 => Some(2), 9 => Some(8), _ => None } }
 
 fn consensus_err(e: &bitcoin::consensus::encode::Error) -> String {
 	// the mapping of util/ser.rs impl_consensus_ser!
@@ -1105,6 +1145,39 @@ fn main() {
 		}
 		run.case_wire(&[], "short", &covered_ids);
 		run.case_wire(&[rng.next() as u8], "short", &covered_ids);
+		// the TLV stream macro on a field list with REQUIRED types (2, 6) and optional ones (3, 9): every subset of the types 0..=10 in
+		// ascending order once per run (2048 streams: missing / skipped required, unknown even / odd before, between and after), then
+		// per round damaged streams: duplicated, swapped, wrong value length, non-minimal type / length, truncated
+		{
+			let mk = |t: u64, rng: &mut Rng| -> (u64, Vec<u8>) { (t, rng.bytes(tlv_probe_width(t).unwrap_or((t % 3) as usize))) };
+			if rep == 0 {
+				for mask in 0u32..(1 << 11) {
+					let recs: Vec<(u64, Vec<u8>)> = (0..11u64).filter(|t| mask >> t & 1 == 1).map(|t| mk(t, &mut rng)).collect();
+					run.case_tlvp(&join_tlvs(&recs), Some(&recs), "subset");
+				}
+			}
+			for _ in 0..60 {
+				let mask = (rng.next() as u32 & 0x7ff) | if rng.chance(2, 3) { 0b100_0100 } else { 0 };
+				let mut recs: Vec<(u64, Vec<u8>)> = (0..11u64).filter(|t| mask >> t & 1 == 1).map(|t| mk(t, &mut rng)).collect();
+				if rng.chance(1, 4) { recs.push(mk(11 + rng.below(1 << 20), &mut rng)); }
+				if recs.is_empty() { recs.push(mk(2, &mut rng)); }
+				let i = rng.below(recs.len() as u64) as usize;
+				match rng.below(6) {
+					0 => { let x = recs[i].clone(); recs.insert(i, x); run.case_tlvp(&join_tlvs(&recs), Some(&recs), "dup"); },
+					1 => { if recs.len() >= 2 { let j = rng.below(recs.len() as u64 - 1) as usize; recs.swap(j, j + 1); } run.case_tlvp(&join_tlvs(&recs), Some(&recs), "swap"); },
+					2 => { if rng.chance(1, 2) { recs[i].1.push(rng.next() as u8); } else { recs[i].1.pop(); } run.case_tlvp(&join_tlvs(&recs), Some(&recs), "value-len"); },
+					3 => {
+						let mut out = join_tlvs(&recs[..i]);
+						let (t, v) = &recs[i];
+						if rng.chance(1, 2) { out.extend(non_minimal(*t, &mut rng)); out.extend(bigsize_bytes(v.len() as u64)); } else { out.extend(bigsize_bytes(*t)); out.extend(non_minimal(v.len() as u64, &mut rng)); }
+						out.extend_from_slice(v); out.extend(join_tlvs(&recs[i + 1..]));
+						run.case_tlvp(&out, None, "non-minimal");
+					},
+					4 => { let b = join_tlvs(&recs); let k = rng.below(b.len() as u64 + 1) as usize; run.case_tlvp(&b[..k], None, "trunc"); },
+					_ => { let mut b = join_tlvs(&recs); if !b.is_empty() { let k = rng.below(b.len() as u64) as usize; b[k] = rng.next() as u8; } run.case_tlvp(&b, None, "flip-byte"); },
+				}
+			}
+		}
 		// BigSize
 		for _ in 0..120 {
 			let n = match rng.below(6) { 0 => *rng.pick(&[0u64, 0xfc, 0xfd, 0xfe, 0xffff, 0x10000, 0xffff_ffff, 0x1_0000_0000, u64::MAX]), 1 => { let c = *rng.pick(&[0xfdu64, 0x10000, 0x1_0000_0000]); rng.near(c) }, 2 => 1u64 << rng.below(64), _ => g.u64b(&mut rng) };
